@@ -1,5 +1,6 @@
 //! Verification harness for cw-multi-test (property-based testing / fuzzing), see /verif/DESIGN.md.
 pub mod driver;
 pub mod engines;
+pub mod fuzz;
 pub mod gen;
 pub mod util;
